@@ -113,6 +113,10 @@ pub fn order(depth: usize) -> Value {
                 for (ki, l, o, c) in &subs {
                     sqls.push(format!("select a, b from (select a, b from {t} order by {} limit {l} offset {o}) s where a > {c}", keysets[*ki].0));
                 }
+                // ORDER BY a key that is not in the select list
+                let first_hidden = sqls.len();
+                sqls.push(format!("select b from {t} order by a"));
+                sqls.push(format!("select b from {t} order by a desc"));
                 let first_unordered = sqls.len();
                 for (l, o) in &lims {
                     let mut q = format!("select a, b from {t}");
@@ -167,6 +171,16 @@ pub fn order(depth: usize) -> Value {
                     let got = outs[idx].clone().unwrap();
                     if sorted(got.clone()) != sorted(want.clone()) {
                         if let Some(v) = found(tried, e, &sqls, &[], idx, format!("the rows with a > {c} among rows {lo}..{hi} of the ordered subquery: {want:?}"), format!("{got:?}")) { return v; }
+                    }
+                }
+                for (j, desc) in [false, true].into_iter().enumerate() {
+                    let mut by_a = data.clone();
+                    by_a.sort_by_key(|r| r[0]);
+                    if desc { by_a.reverse(); }
+                    let want: Vec<Vec<String>> = by_a.iter().map(|r| vec![sv(r[1])]).collect();
+                    let got = outs[first_hidden + j].clone().unwrap();
+                    if got != want {
+                        if let Some(v) = found(tried, e, &sqls, &[], first_hidden + j, format!("the b values in the order of a{}: {want:?}", if desc { " descending" } else { "" }), format!("{got:?}")) { return v; }
                     }
                 }
                 for (j, (l, o)) in lims.iter().enumerate() {
@@ -469,9 +483,27 @@ pub fn join(depth: usize) -> Value {
                 sqls.push(format!("select a, b, c, d from l {kind} join r on a = c"));
                 wants.push(join_oracle(&l, &r, kind, &eq));
             }
-            tried += 4;
+            // ORDER BY on a key of the other side of an outer merge join (NULL-padded rows in between must not survive as such)
+            let o0 = sqls.len();
+            let ordered: Vec<(&str, usize)> = vec![("left", 2), ("full", 2), ("right", 0), ("full", 0), ("inner", 2)];
+            for (kind, col) in &ordered { sqls.push(format!("select a, b, c, d from l {kind} join r on a = c order by {}", if *col == 2 { "c" } else { "a" })); }
+            tried += 4 + ordered.len() as u64;
             let outs = match run(e, &sqls, &[]) { Ok(o) => o, Err(err) => return found_raw(tried, e, &sqls, &[], sqls.len() - 1, "the session to run".into(), err) };
             for (i, o) in outs.iter().enumerate().take(q0) { if let Err(err) = o { if let Some(v) = found(tried, e, &sqls, &[], i, "statement to succeed".into(), err.clone()) { return v; } } }
+            for (j, (kind, col)) in ordered.iter().enumerate() {
+                match &outs[o0 + j] {
+                    Ok(got) => {
+                        if sorted(got.clone()) != join_oracle(&l, &r, kind, &eq) { if let Some(v) = found(tried, e, &sqls, &[], o0 + j, format!("{:?}", join_oracle(&l, &r, kind, &eq)), format!("{:?}", sorted(got.clone()))) { return v; } }
+                        let keys: Vec<Option<i64>> = got.iter().map(|row| row[*col].parse::<i64>().ok()).collect();
+                        let nn: Vec<i64> = keys.iter().flatten().cloned().collect();
+                        let nulls_contiguous = { let first = keys.iter().position(|k| k.is_none()); let last = keys.iter().rposition(|k| k.is_none()); match (first, last) { (Some(f), Some(la)) => (f == 0 || la == keys.len() - 1) && keys[f..=la].iter().all(|k| k.is_none()), _ => true } };
+                        if nn.windows(2).any(|w| w[0] > w[1]) || !nulls_contiguous {
+                            if let Some(v) = found(tried, e, &sqls, &[], o0 + j, "rows ordered by the key (NULLs together at one end)".into(), format!("{got:?}")) { return v; }
+                        }
+                    }
+                    Err(err) => { if let Some(v) = found(tried, e, &sqls, &[], o0 + j, "an ordered result".into(), format!("error: {err}")) { return v; } }
+                }
+            }
             for (j, want) in wants.iter().enumerate() {
                 match &outs[q0 + j] {
                     Ok(got) if sorted(got.clone()) == *want => {}
